@@ -37,6 +37,12 @@ func sortPermutes(ex *Exec, st *State, reach *Term, s *Term, elem types.Type) {
 	at := func(a, i *Term) *Term { return vc.SliceAt(a, off, i) }
 	vc.Assume(reach, Forall([]*Term{iq}, Implies(inb(iq), Exists([]*Term{jq}, And(inb(jq), Eq(at(nw, iq), at(old, jq)))))))
 	vc.Assume(reach, Forall([]*Term{jq}, Implies(inb(jq), Exists([]*Term{iq}, And(inb(iq), Eq(at(nw, iq), at(old, jq)))))))
+	// a permutation preserves the absence of duplicates (same shape as the usual `forall i<j: s[i] != s[j]`)
+	ib, jb := Sym("i!b1", vc.IntSort()), Sym("j!b1", vc.IntSort())
+	distinct := func(a *Term) *Term {
+		return Forall([]*Term{ib, jb}, Implies(And(vc.Cmp("<=", vc.IntConst(0), ib, it), vc.Cmp("<", ib, jb, it), vc.Cmp("<", jb, n, it)), Not(Eq(at(a, ib), at(a, jb)))))
+	}
+	vc.Assume(reach, Implies(distinct(old), distinct(nw)))
 	// outside the slice window nothing changes
 	vc.Assume(reach, Forall([]*Term{iq}, Implies(Not(inb(vc.Arith("-", iq, off, it))), Eq(Select(nw, iq), Select(old, iq)))))
 	ex.setComp(st, c, Store(base, vc.SlicePtr(s), nw))
@@ -144,6 +150,9 @@ func init() {
 			vc.Assume(reach, Forall([]*Term{iq}, Implies(inb(iq), vc.SetOp("member", Select(arr, iq), set))))
 			vc.Assume(reach, Forall([]*Term{xq}, Implies(vc.SetOp("member", xq, set), Exists([]*Term{iq}, And(inb(iq), Eq(Select(arr, iq), xq))))))
 			if sorted {
+				// the first element is the set's minimum (an uninterpreted function of the set)
+				vc.declare("cpuset.min", "(declare-fun cpuset.min ((Set Int)) Int)")
+				vc.Assume(reach, Implies(App(">", SBool, n, IntLit(0)), And(Eq(Select(arr, IntLit(0)), App("cpuset.min", SInt, set)), vc.SetOp("member", Select(arr, IntLit(0)), set))))
 				vc.Assume(reach, Forall([]*Term{iq, jq}, Implies(And(inb(iq), inb(jq), App("<", SBool, iq, jq)), App("<", SBool, Select(arr, iq), Select(arr, jq)))))
 			} else {
 				vc.Assume(reach, Forall([]*Term{iq, jq}, Implies(And(inb(iq), inb(jq), Not(Eq(iq, jq))), Not(Eq(Select(arr, iq), Select(arr, jq))))))
